@@ -69,6 +69,8 @@ pub trait Inner: CredentialStore<PasskeyItem = Passkey> + Send + Sync {
     fn put(&mut self, p: Passkey);
     /// shared lock wrappers: take the lock exclusively, as another user of the same store would; `None` for stores that are not shared
     fn hold(&self) -> Option<Box<dyn std::any::Any>> { None }
+    /// ... as a reader would (a shared guard, where the wrapper has one): lookups go on, writers wait
+    fn hold_shared(&self) -> Option<Box<dyn std::any::Any>> { self.hold() }
 }
 impl Inner for MemoryStore {
     fn all(&self) -> Vec<Passkey> { self.values().cloned().collect() }
@@ -92,6 +94,7 @@ impl<S: Inner + Clone + 'static> Inner for Arc<tokio::sync::RwLock<S>> {
     fn all(&self) -> Vec<Passkey> { self.try_read().unwrap().all() }
     fn put(&mut self, p: Passkey) { self.try_write().unwrap().put(p); }
     fn hold(&self) -> Option<Box<dyn std::any::Any>> { self.clone().try_write_owned().ok().map(|g| Box::new(g) as Box<dyn std::any::Any>) }
+    fn hold_shared(&self) -> Option<Box<dyn std::any::Any>> { self.clone().try_read_owned().ok().map(|g| Box::new(g) as Box<dyn std::any::Any>) }
 }
 impl<S: Inner + Clone> Inner for tokio::sync::Mutex<S> {
     fn all(&self) -> Vec<Passkey> { self.try_lock().unwrap().all() }
@@ -275,7 +278,9 @@ fn hmac_input() -> passkey_types::ctap2::extensions::HmacGetSecretInput {
 
 // ---------------------------------------------------------------- running a case
 
-pub enum Op { Make(MakeOp), Get(GetOp), Info }
+pub enum Op { Make(MakeOp), Get(GetOp), Info,
+    /// a U2F registration on the same authenticator (the credential it stores is then used through CTAP2)
+    U2fReg { app: Vec<u8>, chal: Vec<u8>, handle: Vec<u8> } }
 
 /// C18: run the operations through `<Authenticator as Ctap2Api>` instead of the direct methods
 pub static VIA_TRAIT: std::sync::atomic::AtomicBool = std::sync::atomic::AtomicBool::new(false);
@@ -286,7 +291,9 @@ fn announce(op: &str) { if ANNOUNCE.load(std::sync::atomic::Ordering::Relaxed) {
 pub struct Step { pub op: Op, pub uv: UvState, pub faults: Vec<Option<u8>>, /// `Some(k)`: poll the future at most k times, then drop it (cancellation)
     pub cancel_after: Option<usize>,
     /// k > 0 on a shared lock-wrapper store: another holder keeps the store locked while the ceremony is polled k times, then lets go
-    pub hold_polls: usize }
+    pub hold_polls: usize,
+    /// hold the lock as a reader instead (RwLock wrappers)
+    pub hold_shared: bool }
 
 fn sc(e: StatusCode) -> u8 { e.into() }
 
@@ -341,7 +348,7 @@ fn run_generic<S: Inner + 'static>(ctx: &mut Ctx, prop: &str, w: &World, inner: 
                     match st.cancel_after {
                         // the trait is named by path: importing it would change what `auth.make_credential` resolves to
                         None if st.hold_polls > 0 => {
-                            let guard = auth.store().inner.hold();
+                            let guard = if st.hold_shared { auth.store().inner.hold_shared() } else { auth.store().inner.hold() };
                             let mut fut = Box::pin(auth.make_credential(req));
                             match poll_n(fut.as_mut(), st.hold_polls) { Some(v) => Some(v), None => { drop(guard); Some(block_on(fut)) } }
                         }
@@ -382,7 +389,7 @@ fn run_generic<S: Inner + 'static>(ctx: &mut Ctx, prop: &str, w: &World, inner: 
                     match st.cancel_after {
                         // `&mut auth` coerces to `&auth` if the trait method takes `&self`
                         None if st.hold_polls > 0 => {
-                            let guard = auth.store().inner.hold();
+                            let guard = if st.hold_shared { auth.store().inner.hold_shared() } else { auth.store().inner.hold() };
                             let mut fut = Box::pin(auth.get_assertion(req));
                             match poll_n(fut.as_mut(), st.hold_polls) { Some(v) => Some(v), None => { drop(guard); Some(block_on(fut)) } }
                         }
@@ -402,6 +409,19 @@ fn run_generic<S: Inner + 'static>(ctx: &mut Ctx, prop: &str, w: &World, inner: 
                 let obs = format!("res={} ev={} store={}", r, if ev.is_empty() { "-".into() } else { ev }, snap(&auth.store().inner.all()));
                 ctx.stat(&format!("au.get.{}", r.split(':').next().unwrap()));
                 ctx.line(&format!("au.get {} {} {}{}{}", g.enc(), st.uv.enc(), faults_s(&st.faults), cancel, tw), &obs);
+            }
+            Op::U2fReg { app, chal, handle } => {
+                use passkey_authenticator::U2fApi;
+                let mut a32 = [0u8; 32]; a32.copy_from_slice(&app[..32]); let mut c32 = [0u8; 32]; c32.copy_from_slice(&chal[..32]);
+                let req = passkey_types::u2f::RegisterRequest { challenge: c32, application: a32 };
+                let res = guarded(|| block_on(U2fApi::register(&mut auth, req, handle)));
+                let draws = auth.store().last_saved.lock().unwrap().clone().map(|p: Passkey| { let (d, x, y) = key_parts(&p); format!("{}:{}:{}", hexf(&d), hexf(&x), hexf(&y)) }).unwrap_or("N".into());
+                if let Some(p) = auth.store().last_saved.lock().unwrap().clone() { last_id = Some(p.credential_id.to_vec()); saved_ids.push(p.credential_id.to_vec()); }
+                let rs = match res { None => "panic".to_string(), Some(Err(e)) => format!("err:{:?}", e),
+                    Some(Ok(r)) => { let (x, y, h, c, sg) = (r.public_key.x.to_vec(), r.public_key.y.to_vec(), r.key_handle.clone(), r.attestation_certificate.clone(), r.signature.clone());
+                        format!("ok:{}:{}:{}:{}:{}:{}", hexf(&x), hexf(&y), hexf(&h), hexf(&c), hexf(&sg), hexf(&r.encode())) } };
+                ctx.stat(&format!("u2f.reg.{}", rs.split(':').next().unwrap()));
+                ctx.line(&format!("u2f.reg {} {} {} {} {}", hexf(app), hexf(chal), hexf(handle), draws, faults_s(&st.faults)), &format!("res={} store={}", rs, snap(&auth.store().inner.all())));
             }
             Op::Info => {
                 announce(&format!("au.info {}", st.uv.enc()));
@@ -461,4 +481,4 @@ pub fn simple_make(ctx: &mut Ctx, rp: &str) -> MakeOp {
 pub fn simple_get(ctx: &mut Ctx, rp: &str) -> GetOp {
     GetOp { rp: rp.to_string(), cdh: ctx.rng.bytes(32), allow: None, unk: vec![], ext: None, rk: false, up: true, uv: true, pin: false }
 }
-pub fn step(op: Op) -> Step { Step { op, uv: UvState::ok(), faults: vec![], cancel_after: None, hold_polls: 0 } }
+pub fn step(op: Op) -> Step { Step { op, uv: UvState::ok(), faults: vec![], cancel_after: None, hold_polls: 0, hold_shared: false } }
